@@ -35,6 +35,28 @@ pub open spec fn block_codes(b: PreflateTokenBlock) -> Codes {
 }
 /// every token of a Huffman block can be coded with the block's code (its symbols exist) and the end-of-block symbol exists
 pub open spec fn block_coded(b: PreflateTokenBlock) -> bool {
-    b.block_type is Stored || (256 < block_codes(b).ll.len()
+    b.block_type is Stored || ((b.block_type is DynamicHuff ==> kraft(block_codes(b).ll) && kraft(block_codes(b).dl)) && 256 < block_codes(b).ll.len()
         && forall|i: int| 0 <= i < b.tokens@.len() ==> token_ok(#[trigger] b.tokens@[i]) && tok_syms_ok(block_codes(b), b.tokens@[i]))
+}
+
+/// the fixed code of RFC 1951 3.2.6 is a complete prefix code (24 codes of 7 bits, 152 of 8, 112 of 9; 32 of 5 bits)
+pub proof fn lemma_fixed_kraft()
+    ensures kraft_ok(fixed_ll()), kraft_ok(fixed_dl()),
+{
+    let l = fixed_ll();
+    assert forall|d: int| 1 <= d <= 15 implies #[trigger] cnt_all(l, d) == (if d == 7 { 24int } else if d == 8 { 152int } else if d == 9 { 112int } else { 0int }) by {
+        lemma_cnt_range(l, 8, 0, 144, d); lemma_cnt_range(l, 9, 144, 256, d); lemma_cnt_range(l, 7, 256, 280, d); lemma_cnt_range(l, 8, 280, 288, d);
+    }
+    assert(slots(l, 1) == 2); assert(slots(l, 2) == 4); assert(slots(l, 3) == 8); assert(slots(l, 4) == 16); assert(slots(l, 5) == 32);
+    assert(slots(l, 6) == 64); assert(slots(l, 7) == 128); assert(slots(l, 8) == 208); assert(slots(l, 9) == 112); assert(slots(l, 10) == 0);
+    assert(slots(l, 11) == 0); assert(slots(l, 12) == 0); assert(slots(l, 13) == 0); assert(slots(l, 14) == 0); assert(slots(l, 15) == 0); assert(slots(l, 16) == 0);
+    assert(kraft_ok(l));
+    let m = fixed_dl();
+    assert forall|d: int| 1 <= d <= 15 implies #[trigger] cnt_all(m, d) == (if d == 5 { 32int } else { 0int }) by {
+        lemma_cnt_range(m, 5, 0, 32, d);
+    }
+    assert(slots(m, 1) == 2); assert(slots(m, 2) == 4); assert(slots(m, 3) == 8); assert(slots(m, 4) == 16); assert(slots(m, 5) == 32);
+    assert(slots(m, 6) == 0); assert(slots(m, 7) == 0); assert(slots(m, 8) == 0); assert(slots(m, 9) == 0); assert(slots(m, 10) == 0);
+    assert(slots(m, 11) == 0); assert(slots(m, 12) == 0); assert(slots(m, 13) == 0); assert(slots(m, 14) == 0); assert(slots(m, 15) == 0); assert(slots(m, 16) == 0);
+    assert(kraft_ok(m));
 }
